@@ -301,7 +301,8 @@ Definition as_bytes (s : src) : option string :=
   match s with SBytes x | SStr x => Some x | _ => None end.
 
 (** Scanner.Scan on a non-nil source for a type that is not a sql.Scanner. *)
-Definition scan_valid (e : env) (d : desc) (s : src) : res gval :=
+Definition scan_valid_gen (fix24 : bool) (e : env) (d : desc) (s : src) : res gval :=
+  let kind_scan := kind_scan_gen fix24 in
   match d_base d with
   | BBytes => match as_bytes s with Some x => Ok (GBytes (Some x)) | None => Err end
   | BTime =>
@@ -339,8 +340,10 @@ Definition scan_valid (e : env) (d : desc) (s : src) : res gval :=
       end
   end.
 
+Definition scan_valid := scan_valid_gen true.
+
 (** Scanner.Scan into a fresh (zero) field of descriptor [d]. *)
-Definition scanner (e : env) (d : desc) (s : src) : res fval :=
+Definition scanner_gen (fix24 : bool) (e : env) (d : desc) (s : src) : res fval :=
   match d_base d with
   | BCustom CValuer =>
       match s with
@@ -351,9 +354,11 @@ Definition scanner (e : env) (d : desc) (s : src) : res fval :=
   | b =>
       match s with
       | SNull => Ok (if d_ptr d then FNil else FVal (zero_of b))
-      | _ => rbind (scan_valid e d s) (fun g => Ok (FVal g))
+      | _ => rbind (scan_valid_gen fix24 e d s) (fun g => Ok (FVal g))
       end
   end.
+
+Definition scanner := scanner_gen true.
 
 (** * Tables, rows *)
 Definition table := list (string * desc).
@@ -517,7 +522,16 @@ Inductive sqlcol : Type :=
 Inductive path : Type :=
 | PText      (* text protocol: everything is []byte *)
 | PBinary    (* prepared statements: int64, float32/float64, []byte, time.Time (parseTime) *)
-| PBinlog.   (* go-mysql row event decoding *)
+| PBinlog    (* go-mysql row event decoding *)
+| PProto.    (* the driver value itself: thunderpb.Field (FieldToValue (valueToField v)), or a driver that
+                hands values back unconverted; the column does not matter *)
+
+(** FieldToValue (valueToField v) *)
+Definition proto_src (v : dval) : option src :=
+  match v with
+  | DNull => Some SNull | DInt z => Some (SInt 64 z) | DFloat f => Some (SF64 f) | DBool b => Some (SBool b)
+  | DBytes s => Some (SBytes s) | DStr s => Some (SStr s) | DTime t => Some (STime t) | DOther => None
+  end.
 
 (** The value MySQL stores, or None when the column cannot hold the driver value. *)
 Definition storable (c : sqlcol) (v : dval) : bool :=
@@ -533,6 +547,7 @@ Definition storable (c : sqlcol) (v : dval) : bool :=
   end.
 
 Definition repr (e : env) (c : sqlcol) (p : path) (v : dval) : option src :=
+  match p with PProto => proto_src v | _ =>
   if negb (storable c v) then None else
   match v with
   | DNull => Some SNull
@@ -542,8 +557,8 @@ Definition repr (e : env) (c : sqlcol) (p : path) (v : dval) : option src :=
       | ColInt w u =>
           match p with
           | PText => Some (SBytes (print_Z z))
-          | PBinary => if z <=? max_int64 then Some (SInt 64 z) else Some (SBytes (print_Z z))
           | PBinlog => Some (SInt w (wrap_s w z))
+          | _ => Some (SInt 64 z)
           end
       | ColVarchar => Some (match p with PBinlog => SStr (print_Z z) | _ => SBytes (print_Z z) end)
       | ColBlob => Some (SBytes (print_Z z))
@@ -555,8 +570,8 @@ Definition repr (e : env) (c : sqlcol) (p : path) (v : dval) : option src :=
       | ColInt w _ =>
           match p with
           | PText => Some (SBytes (print_Z z))
-          | PBinary => Some (SInt 64 z)
           | PBinlog => Some (SInt w z)
+          | _ => Some (SInt 64 z)
           end
       | _ => None
       end
@@ -583,7 +598,7 @@ Definition repr (e : env) (c : sqlcol) (p : path) (v : dval) : option src :=
       | ColDatetime _, PBinlog => if Z.eqb (t mod 1000000000) 0 then Some (SStr (fmt_sec e t)) else None
       | _, _ => None
       end
-  end.
+  end end.
 
 (** * Environment from tables (correspondence runs) *)
 Fixpoint zlookup {A} (k : Z) (l : list (Z * A)) : option A :=
@@ -745,4 +760,63 @@ Fixpoint mismatches_sparse (e : env) (cs : list (nat * case)) : list (nat * list
                    | [] => mismatches_sparse e t
                    | l => (i, l) :: mismatches_sparse e t
                    end
+  end.
+
+(** * Domain of the round-trip theorems (decidable; evaluated by the theorems' hypotheses) *)
+Open Scope Z_scope.
+
+Definition width_ok (w : Z) : bool := Z.eqb w 8 || Z.eqb w 16 || Z.eqb w 32 || Z.eqb w 64.
+
+Definition tag_eqb (a b : tag) : bool :=
+  match a, b with
+  | TNone, TNone | TBinary, TBinary | TString, TString | TJson, TJson | TImplicitNull, TImplicitNull => true
+  | _, _ => false
+  end.
+
+(** Descriptors sqlgen registers (ValidateSQLType accepts) and the model covers. *)
+Definition desc_ok (d : desc) : bool :=
+  (match d_base d, d_tag d with
+   | BCustom CValuer, TNone | BCustom CBin, TBinary | BCustom CText, TString => true
+   | BCustom _, _ => false
+   | BBytes, (TNone | TBinary | TImplicitNull) => negb (d_ptr d)
+   | BBytes, _ => false
+   | BTime, (TNone | TImplicitNull) => true
+   | BTime, _ => false
+   | BStr, (TNone | TString | TImplicitNull) => true
+   | BStr, _ => false
+   | (BInt w | BUint w), (TNone | TJson | TImplicitNull) => width_ok w
+   | (BInt _ | BUint _), _ => false
+   | BBool, (TNone | TJson | TImplicitNull) => true
+   | BBool, _ => false
+   | (BF32 | BF64), (TNone | TImplicitNull) => true
+   | (BF32 | BF64), _ => false
+   end) && (if tag_eqb (d_tag d) TImplicitNull then negb (d_ptr d) else true).
+
+(** A Go value of the base type: integers within the kind's range, float32 values representable. *)
+Definition gval_ok (e : env) (b : base) (g : gval) : bool :=
+  match b, g with
+  | (BInt _ | BUint _), GInt z => in_kind b z
+  | BF32, GFloat f => Z.eqb (round32 e f) f
+  | BF64, GFloat _ | BBool, GBool _ | BStr, GStr _ | BTime, GTime _ | BCustom _, GCust _ | BBytes, GBytes _ => true
+  | _, _ => false
+  end.
+
+Definition fval_ok (e : env) (d : desc) (x : fval) : bool :=
+  match x with FNil => d_ptr d | FVal g => gval_ok e (d_base d) g end.
+
+(** Column types a field may be stored in.  An integer column has the field's signedness; a FLOAT
+    column holds float32 fields only; a binary-tagged Marshal type does not live in a VARBINARY column
+    as far as the binlog path is concerned (the decoder returns a string, Scanner.Scan wants []byte). *)
+Definition col_matches (d : desc) (c : sqlcol) (p : path) : bool :=
+  match p with
+  | PProto => true
+  | _ =>
+      match c with
+      | ColInt w u =>
+          width_ok w && match d_base d with BInt _ => negb u | BUint _ => u | BBool => true | _ => false end
+      | ColFloat => match d_base d with BF32 => true | _ => false end
+      | ColVarchar =>
+          match d_base d, p with BCustom CBin, PBinlog => false | _, _ => true end
+      | _ => true
+      end
   end.
